@@ -87,10 +87,44 @@ func c17(c *Ctx) {
 				g := ix.FG(f)
 				x := g.NodeOf(as)
 				call, _ := unparen(rhs).(*ast.CallExpr)
+				// the stored slice itself, or a local that only ever holds it (possibly grown): o := r.back; o = slices.Grow(o, n)
+				var fromStore func(e ast.Expr, depth int) bool
+				fromStore = func(e ast.Expr, depth int) bool {
+					if isStore(e) {
+						return true
+					}
+					v, isV := objOf(info, e).(*types.Var)
+					if !isV || v.IsField() || depth > 3 {
+						return false
+					}
+					n, ok := 0, true
+					inspectNoLit(f.Body(), func(m ast.Node) bool {
+						a2, isAs := m.(*ast.AssignStmt)
+						if !isAs || len(a2.Lhs) != len(a2.Rhs) {
+							return true
+						}
+						for i, l2 := range a2.Lhs {
+							if !sameVar(info, l2, v) {
+								continue
+							}
+							n++
+							r2 := unparen(a2.Rhs[i])
+							if c2, isC := r2.(*ast.CallExpr); isC && isCallTo(info, c2, "slices.Grow") && len(c2.Args) > 0 && (sameVar(info, c2.Args[0], v) || fromStore(c2.Args[0], depth+1)) {
+								continue
+							}
+							if !sameVar(info, r2, v) && fromStore(r2, depth+1) {
+								continue
+							}
+							ok = false
+						}
+						return true
+					})
+					return ok && n > 0
+				}
 				switch {
-				case call != nil && isCallTo(info, call, "slices.Grow") && len(call.Args) > 0 && isStore(call.Args[0]):
+				case call != nil && isCallTo(info, call, "slices.Grow") && len(call.Args) > 0 && fromStore(call.Args[0], 0):
 					c.OK("R1", key, site, "capacity growth only")
-				case call != nil && builtinName(info, call) == "append" && len(call.Args) == 2 && call.Ellipsis.IsValid() && isStore(call.Args[0]):
+				case call != nil && builtinName(info, call) == "append" && len(call.Args) == 2 && call.Ellipsis.IsValid() && fromStore(call.Args[0], 0):
 					// the appended slice must have been sanitised in place by a dominating full range loop
 					src := exprStr(call.Args[1])
 					ok := false
@@ -574,16 +608,46 @@ func rangeSanitises(info *types.Info, r *ast.RangeStmt, isApply func(ast.Expr) b
 	val := objOf(info, r.Value)
 	key := objOf(info, r.Key)
 	ok := false
+	// a value computed into a local of the loop body right before the store (kv := apply(a); X[i] = kv) stands for its definition
+	bodyDef := func(e ast.Expr, before ast.Stmt) ast.Expr {
+		v := objOf(info, e)
+		if v == nil {
+			return e
+		}
+		var def ast.Expr
+		n := 0
+		for _, st := range r.Body.List {
+			if st == before {
+				break
+			}
+			if as, isAs := st.(*ast.AssignStmt); isAs && len(as.Lhs) == len(as.Rhs) {
+				for i, l := range as.Lhs {
+					if sameVar(info, l, v) {
+						def = as.Rhs[i]
+						n++
+					}
+				}
+			}
+		}
+		if n == 1 && def != nil && !assignedOutside(info, r.Body, v, def) {
+			return def
+		}
+		return e
+	}
 	for _, st := range r.Body.List {
 		as, isAs := st.(*ast.AssignStmt)
-		if !isAs || len(as.Lhs) != 1 || len(as.Rhs) != 1 || !isApply(as.Rhs[0]) {
+		if !isAs || len(as.Lhs) != 1 || len(as.Rhs) != 1 {
+			continue
+		}
+		rhs := bodyDef(as.Rhs[0], st)
+		if !isApply(rhs) {
 			continue
 		}
 		ie, isIx := unparen(as.Lhs[0]).(*ast.IndexExpr)
 		if !isIx {
 			continue
 		}
-		call := unparen(as.Rhs[0]).(*ast.CallExpr)
+		call := unparen(rhs).(*ast.CallExpr)
 		if len(call.Args) != 1 {
 			continue
 		}
@@ -664,4 +728,25 @@ func ruleRecordClone(c *Ctx, ix *PkgIndex, rule string) {
 			}
 		}
 	}
+}
+
+// assignedOutside: is v assigned in body anywhere else than by the definition def?
+func assignedOutside(info *types.Info, body *ast.BlockStmt, v types.Object, def ast.Expr) bool {
+	n := 0
+	ast.Inspect(body, func(m ast.Node) bool {
+		switch s := m.(type) {
+		case *ast.AssignStmt:
+			for _, l := range s.Lhs {
+				if sameVar(info, l, v) {
+					n++
+				}
+			}
+		case *ast.IncDecStmt:
+			if sameVar(info, s.X, v) {
+				n++
+			}
+		}
+		return true
+	})
+	return n != 1
 }
